@@ -222,6 +222,12 @@ def check_basis(run: Run, fft_states: dict, rows: dict, ex, jnp, rng, session: s
                 got = np.asarray(sp.get_fourier_coefficients(jnp.asarray(u)[None], scaling_compensation_mode=mode, round=None))[0]
                 if maxabs(got - want) > tol * a * (1 + max(abs(k) for k in kappa)):
                     run.violation(dict(key, what="get_fourier_coefficients", mode=mode), {"err": maxabs(got - want)})
+                # the same field as one channel of a multi-channel state (the scaling is per channel, whatever the channel count)
+                C = 2 + (nsamp + N) % 2
+                fac = np.array([1.0, -0.5, 0.25])[:C]
+                gotc = np.asarray(sp.get_fourier_coefficients(jnp.asarray(fac.reshape((C,) + (1,) * D) * u[None]), scaling_compensation_mode=mode, round=None))
+                if gotc.shape != (C,) + want.shape or max(maxabs(gotc[c] - fac[c] * want) for c in range(C)) > tol * a * (1 + max(abs(k) for k in kappa)):
+                    run.violation(dict(key, what="get_fourier_coefficients", mode=mode, C=C), {"shape": list(gotc.shape)})
             got = np.asarray(sp.get_fourier_coefficients(jnp.asarray(u)[None], round=3))[0]
             den = np.zeros(wshape(D, N))
             for s, r in tab.items():
@@ -251,6 +257,60 @@ def check_roundtrip_random(run: Run, ex, jnp, rng, session, tol):
                         run.violation({"kind": "roundtrip_inferred", "D": D, "N": N, "C": C, "session": session}, {})
 
 
+QUICK_MASKS = [3013, 3016, 2024, 2025]
+THOR_MASKS = [3013, 3015, 3016, 3021, 3024, 2024, 2025, 2032, 2033, 2049, 2064]
+
+
+def run_mask_model(run: Run, tier: str, workdir: str):
+    cfg = os.path.join(workdir, "MC_Masks.cfg")
+    tlc.write_cfg(cfg, constants={"DNSet": setlit(QUICK_MASKS if tier == "quick" else THOR_MASKS)}, invariants=["NestedOK", "OnSphereOK", "OddballOK"])
+    r = tlc.run_tlc("MC_Masks", cfg, workers=16, dump=True, timeout=1800)
+    run.add_tlc(r, "MC_Masks")
+    if not r.ok:
+        run.violation({"kind": "spec", "invariant": r.violated, "what": "MC_Masks"}, {"trace": r.trace_text})
+    return r
+
+
+def check_masks_big(run: Run, dump: str, ex, session: str):
+    """low-pass (box and sphere) and oddball masks and the wavenumber mesh on grids beyond the full tables, every cutoff, both indexings: the
+    sphere must keep exactly the stored indices with |k|^2 <= cutoff^2 (integers), in particular the modes lying on it"""
+    sp = ex.spectral
+    rows = {}
+    for st in iter_dump_states(dump):
+        rows.setdefault((st["D"], st["N"]), {})[tuple(st["s"])] = st["row"]
+    for (D, N), tab in sorted(rows.items()):
+        ws = wshape(D, N)
+        boxmin, sqk, odd = np.zeros(ws, int), np.zeros(ws, int), np.zeros(ws, bool)
+        exp_k = np.zeros((D,) + ws)
+        for s_, r in tab.items():
+            boxmin[s_], sqk[s_], odd[s_] = r["boxmin"], r["sqk"], r["oddball"]
+            for d in range(D):
+                exp_k[(d,) + s_] = r["k"][d]
+        run.case(("masks", D, N, session))
+        key0 = {"kind": "table", "D": D, "N": N, "session": session}
+        perm = [1, 0] + list(range(2, D))
+        on_sphere = sorted({int(c) for c in range(1, N // 2 + 2) if (sqk == c * c).sum() > (2 if D == 1 else 2 * D)})
+        for indexing in ("ij", "xy"):
+            wn = np.asarray(sp.build_wavenumbers(D, N, indexing=indexing))
+            if wn.shape != exp_k.shape or maxabs(wn - (exp_k if indexing == "ij" else exp_k[perm])) > 1e-6:
+                run.violation(dict(key0, what="build_wavenumbers values", indexing=indexing), {})
+            got = np.asarray(sp.oddball_filter_mask(D, N))
+            if got.shape != (1,) + ws or (got[0] != odd).any():
+                run.violation(dict(key0, what="oddball_filter_mask"), {})
+            for c in range(0, N // 2 + 2):
+                for sep in (True, False):
+                    try:
+                        mk = np.asarray(sp.low_pass_filter_mask(D, N, cutoff=c, axis_separate=sep, indexing=indexing))
+                    except TypeError:
+                        mk = np.asarray(sp.low_pass_filter_mask(D, N, cutoff=c, axis_separate=sep))
+                    want = (boxmin <= c) if sep else (sqk <= c * c)
+                    if mk.shape != (1,) + ws or (mk[0] != want).any():
+                        run.violation(dict(key0, what="low_pass_filter_mask", cutoff=c, axis_separate=sep, indexing=indexing),
+                                      {"n_diff": int((mk[0] != want).sum()) if mk.shape == (1,) + ws else -1,
+                                       "modes_on_the_cutoff_sphere": int((sqk == c * c).sum())})
+        run.extra.setdefault("mask_tables_beyond_full_rows", {})[f"{D}d N={N} {session}"] = {"cutoffs_with_modes_on_the_sphere_off_the_axes": on_sphere}
+
+
 def load_tables(r1, r2):
     rows, ffts = {}, {}
     for st in iter_dump_states(r1.dump):
@@ -274,6 +334,8 @@ def run(tier: str, seed: int) -> int:
     session = "x64" if x64 else "f32"
     tol = 1e-10 if x64 else 3e-5
     check_tables(run_, rows, ex, jnp, session)
+    rm = run_mask_model(run_, tier, work)
+    check_masks_big(run_, rm.dump, ex, session)
     check_grids(run_, ex, session, tier)
     check_unit_ifft(run_, rows, ex, jnp, session, tol)
     check_basis(run_, ffts, rows, ex, jnp, rng, session, tol)
@@ -283,7 +345,7 @@ def run(tier: str, seed: int) -> int:
         import subprocess, sys
         dumpdir = os.path.join(work, "f32")
         os.makedirs(dumpdir, exist_ok=True)
-        env = dict(os.environ, VERIF_SESSION="f32", VERIF_C04_LAYOUT_DUMP=r1.dump, VERIF_C04_OUT=os.path.join(dumpdir, "res.json"))
+        env = dict(os.environ, VERIF_SESSION="f32", VERIF_C04_LAYOUT_DUMP=r1.dump, VERIF_C04_MASKS_DUMP=rm.dump, VERIF_C04_OUT=os.path.join(dumpdir, "res.json"))
         pr = subprocess.run([sys.executable, "-m", "harness.checks.c04_f32"], env=env, capture_output=True, text=True, timeout=1800)
         if pr.returncode != 0:
             raise RuntimeError("float32 child failed:\n" + pr.stdout[-2000:] + pr.stderr[-2000:])
